@@ -882,6 +882,8 @@ class ArgumentParser(ParserDeprecations, ActionsContainer, ArgumentLinking, argp
                             default = {"init_args": parser.get_defaults().as_dict()}
                         except (ImportError, AttributeError, ValueError):
                             default = {}  # not an importable class (e.g. a dict in an Any value): nothing to leave out
+                    elif not _is_same_value(val.get("dict_kwargs") or {}, default.get("dict_kwargs") or {}):
+                        same_class = False  # keep class_path and dict_kwargs, only default init_args are left out
                     class_object_val = val
                     val = val.get("init_args")
                     default = default.get("init_args")
